@@ -4,6 +4,7 @@ mod c08;
 mod c08_vectors;
 mod gen;
 mod pd;
+mod placement;
 mod util;
 
 use pvkit::session::CheckDef;
